@@ -15,6 +15,11 @@ sys.path.insert(0, os.path.dirname(os.path.dirname(os.path.abspath(__file__))))
 
 from harness import core  # noqa: E402
 
+# the library is always imported from the repository under test (VERIF_REPO, default /repo) - also in this parent
+# process, whose modules the forked workers inherit
+if core.REPO not in sys.path:
+    sys.path.insert(0, core.REPO)
+
 
 def main():
     ap = argparse.ArgumentParser()
